@@ -33,7 +33,7 @@ def relate(a, b):
 
 
 def run(ctx):
-    bdir, A = runcheck.setup(ctx, ["Wrap:max_is_min_neg|optimize_preserves", "C14b:setter_stores_setObjective"])
+    bdir, A = runcheck.setup(ctx, ["Wrap:max_is_min_neg|optimize_preserves", "C14b:setter_stores_setObjective", "C08"])
     if bdir:
         ctx.algnames = A.names
         rng = random.Random(ctx.seed * 17 + 8)
@@ -76,12 +76,32 @@ def run(ctx):
             d = relate(a, b)
             if d:
                 return d
-            pa_, pb_ = getattr(a, "precond", []), getattr(b, "precond", [])
+            pa_, pb_ = [l for l in getattr(a, "precond", []) if l.startswith("P ")], [l for l in getattr(b, "precond", []) if l.startswith("P ")]
             if len(pa_) != len(pb_):
                 return "number of preconditioner calls differs: %d vs %d" % (len(pa_), len(pb_))
             return None
         runcheck.compare_pairs(ctx, [r for _, r, _ in bc], [r for _, r, _ in bd], relate_pre, "pairs with preconditioner (max f | min -f)", {"cause": "max f differs from min -f", "preconditioner": True})
         ctx.cov["preconditioner_calls_seen"] = sum(len(getattr(r, "precond", [])) for _, r, _ in bc)
+        # correspondence for pre_max: hook event 42 (what the algorithm receives) against the model applied to the user's result
+        from ..common import run_model
+        ops, want = [], []
+        for _, r, _ in bc:
+            pl = getattr(r, "precond", [])
+            for a, b in zip(pl, pl[1:]):
+                if a.startswith("P ") and b.startswith("Q "):
+                    ops.append("premax " + swrap.kvs(a)["vpre"])
+                    want.append((swrap.kvs(b)["vpre"], r.spec))
+        if ops:
+            try:
+                got = [l for l in run_model("glue", "\n".join(ops) + "\n") if l.strip()]
+                bad = [(g, w) for g, (w, _) in zip(got, want) if g != w]
+                ctx.corr["pre_max (model vs optimize.c)"] = {"calls": len(ops), "disagreements": len(bad) + abs(len(got) - len(want))}
+                if bad or len(got) != len(want):
+                    ctx.broke("correspondence pre_max: model vs optimize.c", "model %s, implementation handed the algorithm %s" % (bad[0] if bad else ("?", "?")))
+            except Exception as e:
+                ctx.broke("glue model driver", repr(e))
+        else:
+            ctx.broke("correspondence pre_max: no preconditioner call observed", "hook event 42 missing")
         ctx.sample({"spec_max": ba[0][1].spec, "spec_min": bb[0][1].spec})
     ctx.assumptions += ["the user's -f is computed by exact sign flips of value and gradient (IEEE negation is exact)"]
     return ctx.finish(level="proof", extra_cov={"rule": "a case = one run (each pair contributes two); distinct by spec"})
